@@ -123,6 +123,12 @@ func (b *c08Bucket) take(sec, n int64) bool {
 func c08TTL(rate, burst int64) int64 { return 2 * burst / rate } // floor(2*burst/rate), the script's key TTL
 
 func c08Cfg(r *rand.Rand) (rate, burst int64) {
+	if r.Intn(5) < 2 {
+		// slow refill, deep bucket: long key TTL, many partial refills
+		rate = int64(1 + r.Intn(5))
+		burst = int64(8 + r.Intn(50))
+		return
+	}
 	rate = int64(1 + r.Intn(40))
 	lo := (rate + 1) / 2 // smallest burst with 2*burst >= rate
 	switch r.Intn(8) {
@@ -152,10 +158,12 @@ func c08Cfg(r *rand.Rand) (rate, burst int64) {
 
 func c08PickN(r *rand.Rand, burst int64) int64 {
 	switch x := r.Intn(100); {
-	case x < 45:
+	case x < 35:
 		return 1
-	case x < 48:
+	case x < 38:
 		return 0
+	case x < 48:
+		return 1 + burst/2
 	case x < 56:
 		return burst
 	case x < 62:
@@ -174,11 +182,11 @@ func c08PickAdv(r *rand.Rand, rate, burst int64, subsec bool) int64 {
 	ttl := c08TTL(rate, burst)
 	x := r.Intn(100)
 	switch {
-	case x < 55:
+	case x < 50:
 		return 0
-	case x < 68:
+	case x < 70:
 		return 1000
-	case x < 72:
+	case x < 73:
 		return 2000
 	case x < 76:
 		return (ttl - 1) * 1000
@@ -366,8 +374,9 @@ func c08GenTokenSeq(r *rand.Rand, steps int) c08TScenario {
 func TestVerifC08TokenSeq(t *testing.T) {
 	m := vk.New(t, "C08", "token limiter on healthy Redis: every AllowN(now,n) compared with the statement's integer bucket; window bound over every window; caller clock and miniredis advanced in lock-step")
 	defer m.Done()
-	const workers = 4
-	n := vk.N(320, 16000)
+	defer c08Wall(m, time.Now())
+	const workers = 6
+	n := vk.N(120, 2000)
 	var wg sync.WaitGroup
 	var next atomic.Int64
 	for w := 0; w < workers; w++ {
@@ -390,7 +399,7 @@ func TestVerifC08TokenSeq(t *testing.T) {
 					continue
 				}
 				r := m.Rand("tseq", i)
-				sc := c08GenTokenSeq(r, vk.N(200, 300))
+				sc := c08GenTokenSeq(r, vk.N(150, 300))
 				runC08TokenSeq(m, i, sc, srv, store)
 				srv.mr.FlushAll()
 				if i%200 == 0 {
@@ -607,6 +616,7 @@ func (x *c08ORun) waitReturn() (ok bool) {
 				x.m.Inconclusive("case %d: harness server not answering after the fault was removed", x.idx)
 				return false
 			}
+			c08NoReturn.Store(true)
 			x.m.Violate("C08:outage:no-return-to-redis:"+x.fault, x.desc,
 				"fault %q removed %v ago, server answers PING to an independent client (%d PINGs seen by the hook), AllowN called %d times since, but the server executed no EVAL from the limiter",
 				x.fault, el.Round(time.Millisecond), x.srv.pings.Load(), calls)
@@ -669,7 +679,15 @@ func (x *c08ORun) up(calls []c08Call, phase string) bool {
 	return true
 }
 
+// c08NoReturn is set once a limiter failed to come back to Redis within the
+// deadline: later scenarios would each spend the same 10 s on the same verdict.
+var c08NoReturn atomic.Bool
+
 func runC08Outage(m *vk.M, idx int, sc c08OScenario) {
+	if c08NoReturn.Load() {
+		m.Count("outage.skipped-after-no-return-violation", 1)
+		return
+	}
 	x := &c08ORun{m: m, idx: idx, sc: sc, desc: fmt.Sprintf("case=%d;%s", idx, vk.JSON(sc))}
 	srv, err := newC08Srv()
 	if err != nil {
@@ -739,8 +757,9 @@ func runC08Outage(m *vk.M, idx int, sc c08OScenario) {
 func TestVerifC08TokenOutage(t *testing.T) {
 	m := vk.New(t, "C08", "token limiter across Redis outages (miniredis Close/Restart, error replies): fallback answers consistent with some bucket of the same rate/burst per segment; EVAL seen again within 10 s; agreement with the reference bucket one refill period after the return")
 	defer m.Done()
+	defer c08Wall(m, time.Now())
 	const workers = 8
-	n := vk.N(48, 1600)
+	n := vk.N(80, 1600)
 	var wg sync.WaitGroup
 	var next atomic.Int64
 	for w := 0; w < workers; w++ {
@@ -772,9 +791,10 @@ func TestVerifC08TokenOutage(t *testing.T) {
 func TestVerifC08TokenRace(t *testing.T) {
 	m := vk.New(t, "C08", "token limiter under 32 concurrent callers (-race): token conservation per round when every call was answered by Redis; one-sided bound during an outage; return to Redis within 10 s; race detector on startMonitor/waitForRedis/redisAlive")
 	defer m.Done()
+	defer c08Wall(m, time.Now())
 	const G = 32
-	n := vk.N(6, 120)
-	const workers = 3
+	n := vk.N(4, 60)
+	const workers = 2
 	var wg sync.WaitGroup
 	var next atomic.Int64
 	for w := 0; w < workers; w++ {
@@ -801,6 +821,10 @@ type c08RRes struct {
 }
 
 func runC08TokenRace(m *vk.M, idx, G int) {
+	if c08NoReturn.Load() {
+		m.Count("race.skipped-after-no-return-violation", 1)
+		return
+	}
 	r := m.Rand("trace", idx)
 	rate, burst := c08Cfg(r)
 	per := 1 + r.Intn(3)
@@ -977,6 +1001,7 @@ func runC08TokenRace(m *vk.M, idx, G int) {
 				m.Inconclusive("case %d: harness server not answering after the fault was removed", idx)
 				return
 			}
+			c08NoReturn.Store(true)
 			m.Violate("C08:token-race:no-return-to-redis:"+fault, desc, "fault removed %v ago, server answers PING, %d concurrent AllowN calls since, no EVAL executed", el.Round(time.Millisecond), polls)
 			return
 		}
